@@ -107,7 +107,7 @@ pub fn main(args: &[String], w: &mut dyn Write) {
             let generated = if cram { CramTestCaseGenerator::default().generate_testcases(&[&outcome]) } else { MarkdownTestCaseGenerator::default().generate_testcases(&[&outcome]) };
             generated
         }));
-        let head = format!("G {} {} {} {} {} {}", if cram { 'c' } else { 'm' }, if ascii { 'a' } else { 'u' }, if quantified || fixed { 2 } else { update as u8 }, hex(expr.as_bytes()), code, hex(&out));
+        let head = format!("G {} {} {} {} {} {} {}", if cram { 'c' } else { 'm' }, if ascii { 'a' } else { 'u' }, if quantified || fixed { 2 } else { update as u8 }, hex(expr.as_bytes()), code, hex(&out), hex(tc.title.as_bytes()));
         let generated = match res { Err(_) => { writeln!(w, "{}|-|genpanic|0|-", head).unwrap(); continue; } Ok(Err(_)) => { writeln!(w, "{}|-|generr|0|-", head).unwrap(); continue; } Ok(Ok(g)) => g };
         let parsed = std::panic::catch_unwind(std::panic::AssertUnwindSafe(|| if cram { crp.parse(&generated) } else { mdp.parse(&generated) }));
         let (pk, same, vk) = match parsed {
